@@ -29,6 +29,7 @@ func Prepare(p *core.Program) {
 	rs := &roleSet{}
 	rolesOf[p] = rs
 	core.LowerBound = p.LowerBoundOf
+	core.MayWriteField = p.LoopMayWriteField
 	core.CanonOpaque[core.ExpandKey("mod/internal/webdoc.CanBeNested")] = true
 	isNode := func(t types.Type) bool { return t.String() == "*golang.org/x/net/html.Node" }
 	if cf := p.Func("(*" + core.ExpandKey(classifierPkg) + ".Classifier).Classify"); cf != nil {
